@@ -103,7 +103,8 @@ class Arr(list):
 
 
 class DDict(dict):
-    """collections.defaultdict(list-like factory): reading a missing key inserts a fresh empty list"""
+    """collections.defaultdict: reading a missing key inserts a fresh empty list (or set, when factory is set)"""
+    factory = list
 
 
 class MaxV:
@@ -229,6 +230,12 @@ class Interp:
             self.fn_stack = [fn]
             if fn.parent is not None and isinstance(fn.node, (ast.FunctionDef, ast.AsyncFunctionDef)) and fn.name not in env1:
                 env1[fn.name] = LocalFn(fn.node, env1, fn)   # a nested function can call itself
+            if fn.parent is not None and isinstance(fn.node, (ast.FunctionDef, ast.AsyncFunctionDef)):
+                # ... and the functions defined next to it in the enclosing function
+                for sib in ast.walk(fn.parent.node):
+                    if isinstance(sib, (ast.FunctionDef, ast.AsyncFunctionDef)) and sib is not fn.node and sib is not fn.parent.node \
+                            and sib.name not in env1 and any(sib is b for b in fn.parent.node.body):
+                        env1[sib.name] = LocalFn(sib, env1, fn)
             try:
                 rv = self.call_body(fn, env1, 0)
             except _Raise:
@@ -326,6 +333,8 @@ class Interp:
                 new = cur / rhs
             elif isinstance(cur, list) and isinstance(rhs, list) and isinstance(st.op, ast.Add):
                 new = cur + rhs
+            elif isinstance(cur, bool) and isinstance(rhs, bool) and isinstance(st.op, (ast.BitOr, ast.BitAnd)):
+                new = (cur or rhs) if isinstance(st.op, ast.BitOr) else (cur and rhs)
             if isinstance(st.target, ast.Name):
                 env[st.target.id] = new
             else:
@@ -543,12 +552,12 @@ class Interp:
                     last = self.ev(v, env, depth)
                     if self.truthy(last):
                         return last if isinstance(last, (bool, SVal, SumVal, LocalFn, Sym, dict, list)) else True
-                return last if isinstance(last, (SVal, type(None))) else False
+                return last if isinstance(last, (SVal, type(None), list, dict, set, tuple, str, int, float)) else False
             last = True
             for v in e.values:
                 last = self.ev(v, env, depth)
                 if not self.truthy(last):
-                    return last if last is None else False
+                    return last if last is None or isinstance(last, (list, dict, set, tuple, str, int, float)) else False
             return last if isinstance(last, (bool, SVal, SumVal, LocalFn, Sym, dict, list)) else True
         if isinstance(e, ast.IfExp):
             return self.ev(e.body if self.truthy(self.ev(e.test, env, depth)) else e.orelse, env, depth)
@@ -635,7 +644,7 @@ class Interp:
             if isinstance(base, DDict) and idx is not UNKNOWN:
                 k_ = self._hashable(idx)
                 if k_ not in base:
-                    base[k_] = []
+                    base[k_] = base.factory()
                 return base[k_]
             if isinstance(base, dict) and idx is not UNKNOWN:
                 return base.get(self._hashable(idx), UNKNOWN)
@@ -778,8 +787,12 @@ class Interp:
             if nm in ("all", "any") and len(args) == 1 and isinstance(args[0], list):
                 vals = [self.truthy(v) for v in args[0]]
                 return all(vals) if nm == "all" else any(vals)
-            if nm == "len" and len(args) == 1 and isinstance(args[0], list):
+            if nm == "len" and len(args) == 1 and isinstance(args[0], (list, set, dict)):
                 return len(args[0])
+            if nm == "map" and len(args) == 2 and isinstance(args[1], (list, set)) and nm not in env:
+                return [self.apply(args[0], [x], env, depth) for x in (args[1] if isinstance(args[1], list) else sorted(args[1], key=repr))]
+            if nm == "filter" and len(args) == 2 and isinstance(args[1], list) and nm not in env and args[0] is not None:
+                return [x for x in args[1] if self.truthy(self.apply(args[0], [x], env, depth))]
             if nm == "reversed" and len(args) == 1 and isinstance(args[0], list):
                 return list(reversed(args[0]))
             if nm == "sorted" and len(args) == 1 and isinstance(args[0], list) and kwargs.get("key") is None:
@@ -1027,6 +1040,9 @@ class Interp:
             if isinstance(base, set) and nm == "add" and args:
                 base.add(self._hashable(args[0]))
                 return None
+            if isinstance(base, set) and nm == "update" and len(args) == 1 and isinstance(args[0], (set, list)):
+                base.update(self._hashable(x) for x in args[0])
+                return None
             if isinstance(base, dict) and nm == "update" and len(args) == 1 and isinstance(args[0], dict):
                 base.update(args[0])
                 return None
@@ -1131,6 +1147,12 @@ def _install():
                 fi = mod.functions.get(name)
                 val = LocalFn(st, {}, fi if fi is not None else self.fn_stack[-1], self._defaults(st, {}, depth))
                 break
+        if val is None:
+            # a module-level function of the repository imported by name
+            full = self.prog.resolve_name(mod, name)
+            fi = self.prog.functions.get(full) if full else None
+            if fi is not None and fi.cls is None and fi.parent is None and isinstance(fi.node, (ast.FunctionDef, ast.AsyncFunctionDef)):
+                val = LocalFn(fi.node, {}, fi, self._defaults(fi.node, {}, depth))
         if val is None or val is UNKNOWN:
             return None
         self.globals[key] = val
@@ -1175,10 +1197,16 @@ def _dataclass_fields(prog, ci) -> list[str]:
 
 
 def _copy_val(v: Any) -> Any:
+    if isinstance(v, Arr):
+        return Arr(_copy_val(x) for x in v)
     if isinstance(v, list):
         return [_copy_val(x) for x in v]
     if isinstance(v, set):
         return set(v)
+    if isinstance(v, DDict):
+        d = DDict((k, _copy_val(x)) for k, x in v.items())
+        d.factory = v.factory
+        return d
     if isinstance(v, dict):
         return {k: _copy_val(x) for k, x in v.items()}
     if isinstance(v, Obj):
